@@ -339,7 +339,7 @@ impl Check for C08 {
     }
 
     fn rule(&self) -> String {
-        "Per episode one intact single-packet datagram (all eight kinds, real builders or foreign encoder, with/without padding); around it the single-fault space is enumerated exhaustively (every truncation length, extensions by 1/2/3/4/8 bytes and by itself, all 256 values of header byte 0 and of the packet-type byte, length field in {0, L-2..L+2, 0xffff}, padding trailer values with P set and clear, inner length bytes) plus 200 seeded double faults (truncate+reframe, P-bit+trailer, count+truncate+reframe, junk+reframe); each delivery goes to the 7 typed parsers, Unknown::parse and Packet::parse. evaluations = deliveries. Non-trivial = a fault fired and the delivery is at least 4 bytes (past the bare size check); distinct = distinct (vector of per-parser result codes, fault-kind sequence, length in words).".into()
+        "Per episode one intact single-packet datagram (all eight kinds, real builders or foreign encoder, with/without padding); around it the single-fault space is enumerated exhaustively (every truncation length, extensions by 1/2/3/4/8 bytes and by itself, all 256 values of header byte 0 and of the packet-type byte, length field in {0, L-2..L+2, 0xffff}, padding trailer values with P set and clear, inner length bytes) plus 200 seeded double faults (truncate+reframe, P-bit+trailer, count+truncate+reframe, junk+reframe); and, in the first 4096 episodes of a run, an exhaustive sweep of the 16-bit length field (all 65536 values x 10 packet types x 3 first-byte variants x real size = announced -4/-1/0/+1/+4); each delivery goes to the 7 typed parsers, Unknown::parse and Packet::parse. evaluations = deliveries. Non-trivial = a fault fired and the delivery is at least 4 bytes (past the bare size check); distinct = distinct (vector of per-parser result codes, fault-kind sequence, length in words).".into()
     }
     fn assumptions(&self) -> Vec<String> {
         vec![
@@ -354,6 +354,6 @@ impl Check for C08 {
             .set("stub", J::Arr(vec!["channel + fault enumerator".into(), "foreign peer RFC encoder (traffic)".into(), "independent header reader (oracle)".into()]))
     }
     fn exhaustive_dimensions(&self) -> Vec<String> {
-        vec!["all truncation lengths 0..len per base (len <= 640)".into(), "all 256 values of header byte 0 and of the packet-type byte per base".into()]
+        vec!["all truncation lengths 0..len per base (len <= 640)".into(), "all 256 values of header byte 0 and of the packet-type byte per base".into(), "all 65536 values of the length field (frames of announced size -4/-1/0/+1/+4, every packet type), once per run".into()]
     }
 }
